@@ -1013,3 +1013,64 @@ def r4(cx):
         elif len(locs) > mx:
             cx.violation(fn, 'panic-site-count', '%d explicit panic sites, %d reviewed' % (len(locs), mx), loc=locs[-1])
     cx.floor(len(counts), 20, 'functions with explicit panic sites')
+
+
+@RS.rule('C06.R3b', 'K-GUARD+K-CONST', 'first_word_is_keyword answers `false` only for a missing/non-literal first word or from the keyword table; a length shortcut must admit the longest keyword')
+def r3b(cx):
+    F = cx.F
+    fns = [k for k in F.bodies if k.endswith('SimpleCommand::first_word_is_keyword')]
+    cx.require(len(fns) == 1, 'first_word_is_keyword not found')
+    b = F.bodies[fns[0]]
+    cx.fn(b.fn)
+    du = Q.DefUse(b)
+    # longest keyword, read from Keyword::as_str
+    kfn = [k for k in F.hir if k.endswith('Keyword::as_str') or k.endswith('<impl yash_syntax::parser::lex::keyword::Keyword>::as_str')]
+    cx.require(len(kfn) == 1, 'Keyword::as_str not found: %s' % kfn)
+    words = [x.get('v') for x in H.walk(F.hir[kfn[0]]['body']) if x.get('k') == 'lit' and x.get('t') == 'str']
+    cx.require(len(words) >= 15, 'keyword table not readable')
+    maxlen = max(len(w) for w in words)
+    falses = [(blk, j, s) for blk, j, s in b.stmts() if s['k'] == 'assign' and s['lhs']['l'] == 0 and not s['lhs'].get('p')
+              and s['rv']['k'] == 'use' and str(s['rv']['o'].get('c')) == 'false']
+    cx.site('first_word_is_keyword: %d constant-false results; longest keyword has %d characters' % (len(falses), maxlen))
+    for blk, j, s in falses:
+        conds = Q.dominating_conditions(F, b, du, blk)
+        ok = False
+        why = []
+        for org, lab, e in conds:
+            if org['k'] == 'discr' and lab == ('variant', 'None') and 'core::option::Option' in org['ty']:
+                src = Q.value_source(b, du, {'cp': {'l': org['pl']['l']}})
+                if src is not None and Q.callee_is(src, [Q.re.compile(r'::first$'), Q.re.compile(r'::to_string_if_literal$'),
+                                                          Q.re.compile(r'::get$'), Q.re.compile(r'::first_mut$')]):
+                    ok = True
+            if org['k'] == 'binop' and org['rv']['op'] in ('Gt', 'Ge', 'Lt', 'Le'):
+                a_, b_ = org['rv']['a'], org['rv']['b']
+                consts = [(i, o) for i, o in enumerate((a_, b_)) if 'c' in o or 'cdef' in o]
+                if consts:
+                    i, o = consts[0]
+                    n = None
+                    if o.get('cdef') and o['cdef'] in F.hir:
+                        v = H.const_eval(F.hir[o['cdef']]['body'])
+                        n = v if isinstance(v, int) else None
+                    if n is None:
+                        try:
+                            n = int(str(o.get('c')).split('_')[0])
+                        except ValueError:
+                            continue
+                    op = org['rv']['op']
+                    truth = lab[1]
+                    # normalise to: "length REL n" holds on this edge, with the length on the left
+                    if i == 0:
+                        op = {'Gt': 'Lt', 'Ge': 'Le', 'Lt': 'Gt', 'Le': 'Ge'}[op]
+                    if not truth:
+                        op = {'Gt': 'Le', 'Ge': 'Lt', 'Lt': 'Ge', 'Le': 'Gt'}[op]
+                    # false may be answered only for lengths that no keyword has
+                    admits = (op == 'Gt' and n >= maxlen) or (op == 'Ge' and n > maxlen) or (op == 'Lt' and n <= min(len(w) for w in words)) \
+                        or (op == 'Le' and n < min(len(w) for w in words))
+                    why.append('length %s %d' % (op, n))
+                    if admits:
+                        ok = True
+        if not ok:
+            cx.violation(b.fn, 'false-without-table', 'first_word_is_keyword answers "not a keyword" on a path that neither found the first word '
+                         'missing/non-literal nor consulted the keyword table (%s; the longest keyword has %d characters): a simple command whose '
+                         'name is that keyword after a redirection is then printed words-first and no longer parses back'
+                         % (', '.join(why) or 'unrecognised guard', maxlen), loc=b.loc(s))
